@@ -416,3 +416,12 @@ def r03_8(ctx):
     r07_1(ctx)
     r07_7(ctx)
     r07_8(ctx)
+
+
+@rule("R03.9", "C03", "operand-kind independence: the conversions a callback inserts do not depend on the class of its operands", min_instances=20)
+def r03_9(ctx):
+    from .c02 import callback_operand_kind_independence
+    from .c05 import statement_operand_kind_independence
+
+    callback_operand_kind_independence(ctx)
+    statement_operand_kind_independence(ctx)
